@@ -451,6 +451,18 @@ def describe_vjson(ev, obs, entry):
     return "value-json %s %s => %s; decoder returned %s" % (kind, what[:700], "; ".join(entry.get("why") or ["?"]), b[:300])
 
 
+def describe_djson(ev, obs, entry):
+    d = ev.get("datum") or {}
+    def item(x):
+        p = x.get("pos") or {}
+        return "%r@%r:%s:%s:%s%s" % (cps(x.get("id")), cps(p.get("file")), pretty.big(p.get("off")), pretty.big(p.get("line")), pretty.big(p.get("col")),
+                                      (" %r" % cps(x.get("msg"))) if "msg" in x else "")
+    return "diagnostic-json %s reasons=[%s] errors=[%s] =>WHY: %s [back: %s]" % (
+        d.get("decision"), ", ".join(item(x) for x in d.get("reasons") or []), ", ".join(item(x) for x in d.get("errors") or []),
+        "; ".join(entry.get("why") or ["?"]), json.dumps((obs or {}).get("back"))[:300])
+
+
+KINDS["djson"] = dict(module="Trace_ValueJson", shrink=None, describe=describe_djson)
 KINDS["vjson"] = dict(module="Trace_ValueJson", shrink=None, describe=describe_vjson)
 vlib.TRACE_PREP["Trace_ValueSchema"] = trace_tables
 vlib.TRACE_CFG["Trace_ValueSchema"] = TEXT_CFG
@@ -497,6 +509,7 @@ def run_C13(ctx):
     q = ctx.quick
     add_m3(ctx, "vjson", "roundtrips", "vjson", 6000 if q else 200000)
     add_m3(ctx, "vjsonschema", "schema-guided", "vjsonschema", 1200 if q else 40000)
+    add_m3(ctx, "djson", "diagnostics", "djson", 600 if q else 20000)
     return vlib.finish(ctx, confirm_all)
 
 
